@@ -27,7 +27,7 @@ func c19(c *rig.Ctx) {
 	c.Rule("C19: the DAGs of C18 (same generator and seeds) built under refs/heads/*; all ordered pairs (incl. a==b) for merge base and fast-forward; per commit several random ancestor-spec chains over ~, ~n, ^, ^1, ^2 (plus the rejected forms ^0, ^3, ~0) on hash, branch-name and HEAD bases; a DAG is distinct by its parent-list shape and non-trivial when it contains a merge")
 	c.Assume("C19: height in 'no common ancestor is higher' is the model height 1+max(parents); C18 decides that stored heights equal it")
 	c.Assume("C19: ancestor specs with a parent number other than 1 or 2 (^0, ^3, …) are rejected by the parser (ErrInvalidAncestorSpec); a rejection selects no commit and is counted, not reported")
-	n := c.Pick(200, 5000)
+	n := c.Pick(300, 20000)
 	jobs := make(chan int)
 	var mu sync.Mutex
 	var wg sync.WaitGroup
